@@ -13,7 +13,7 @@ import json
 import os
 import random
 
-from .. import core, tlcrun, par, impl, node
+from .. import core, tlcrun, par, impl, node, messages
 from ..text import s, cps, ss, cpss
 from .c12 import run_reader
 
@@ -52,8 +52,8 @@ def py_write(mods, table, dlm, policy, linesep, encoding):
             w.write([list(c) if isinstance(c, list) else c for c in rec])
         w.finish()
         warns = w.get_warnings()
-        res['wnone'] = any('None' in x for x in warns)
-        res['wdelim'] = any('separator' in x for x in warns)
+        res['wnone'] = messages.has_kind(warns, 'none')
+        res['wdelim'] = messages.has_kind(warns, 'separator')
         if encoding is None:
             res['text'] = stream.getvalue()
         else:
@@ -168,8 +168,8 @@ def js_cases(run, cases):
         if text != s(case['text']):
             run.violation(dict(base, what='written text', got=text, want=s(case['text'])), {'kind': 'codec_case', 'case': case})
             continue
-        wn = any('null' in w for w in r['warnings'])
-        wd = any('separator' in w for w in r['warnings'])
+        wn = messages.has_kind(r['warnings'], 'none')
+        wd = messages.has_kind(r['warnings'], 'separator')
         if wn != case['wnone']:
             run.violation(dict(base, what='None warning', got=wn, want=case['wnone']), {'kind': 'codec_case', 'case': case})
         zero_field = any(len(rec) == 0 for rec in case['T'])
